@@ -25,6 +25,8 @@ struct W {
     u: U,
     ring: KeyRing,
     g: Gw,
+    /// long histories: probe a sample of the installed sets at every step instead of all of them
+    sample: bool,
     ctr: u64,
 }
 
@@ -50,7 +52,26 @@ fn probe_all(ctx: &Ctx, rep: &mut Report, w: &mut W, rng: &mut Rng) -> bool {
         let plan = plan_honest(&w.ring, &m.domain, &m.sets[i], &approve_data_hash(&[msg.clone()]), &all_slots(&m.sets[i]));
         w.kept_batches.push((vec![msg], plan));
     }
+    // which sets to probe: all of them, or (long histories) the two oldest, the two newest, those
+    // around the retention boundary, those 14..18 and 30..34 epochs back, and three random ones
+    let n_sets = m.sets.len();
+    let mut chosen: Vec<bool> = vec![!(w.sample && n_sets > 8); n_sets];
+    if w.sample && n_sets > 8 {
+        for i in 0..n_sets {
+            let gap = cur - (i as u64 + 1);
+            let near_boundary = gap == m.retention || gap + 1 == m.retention || gap == m.retention.saturating_add(1);
+            if i < 2 || i + 2 >= n_sets || near_boundary || (14..=18).contains(&gap) || (30..=34).contains(&gap) {
+                chosen[i] = true;
+            }
+        }
+        for _ in 0..3 {
+            chosen[rng.usize(n_sets)] = true;
+        }
+    }
     for (i, set) in m.sets.iter().enumerate() {
+        if !chosen[i] {
+            continue;
+        }
         let e = i as u64 + 1;
         let gap = cur - e;
         let retained = gap <= m.retention;
@@ -162,26 +183,34 @@ pub fn run(ctx: &Ctx, rep: &mut Report) {
     let retentions: Vec<u64> = if ctx.thorough() { vec![0, 1, 2, 3, 4, 10, 1 << 40, u64::MAX - 2, u64::MAX] } else { vec![0, 1, 2, u64::MAX - 1, u64::MAX] };
     let len: u32 = if ctx.thorough() { 7 } else { 4 };
     let seqs = 3u64.pow(len);
-    let total = retentions.len() as u64 * 3 * seqs;
+    let enumerated = retentions.len() as u64 * 3 * seqs;
+    // plus long random histories (20..45 rotations) with retentions around and beyond 16
+    let long_runs: u64 = if ctx.thorough() { 192 } else { 16 };
+    let total = enumerated + long_runs;
     for uni in ctx.my_universes(total) {
         let mut rng = ctx.rng_for(uni);
         rep.begin_universe(uni);
-        let retention = retentions[(uni / (3 * seqs)) as usize % retentions.len()];
+        let long = uni >= enumerated;
+        let retention = if long { *rng.pick(&[15u64, 16, 17, 20, 33, u64::MAX]) } else { retentions[(uni / (3 * seqs)) as usize % retentions.len()] };
         let n_init = 1 + ((uni / seqs) % 3) as usize;
         let mut code = uni % seqs;
+        let len: u32 = if long { 20 + rng.below(26) as u32 } else { len };
+        if long {
+            rep.count("long-history");
+        }
         let mut u = U::new();
         let mut ring = KeyRing::default();
         let owner = u.principal();
         let operator = u.principal();
         let initial: Vec<MSigners> = (0..n_init).map(|_| gen_wellformed_set(&mut rng, &mut ring, 3)).collect();
         let g = Gw::deploy(&mut u, &owner, &operator, rng.bytes32(), 0, retention, &initial);
-        let mut w = W { kept: Vec::new(), kept_batches: Vec::new(), operator: operator.clone(), u, ring, g, ctr: 0 };
+        let mut w = W { kept: Vec::new(), kept_batches: Vec::new(), operator: operator.clone(), u, ring, g, ctr: 0, sample: long };
         rep.step(format!("world retention={} n_init={} code={}", retention, n_init, code));
         if !probe_all(ctx, rep, &mut w, &mut rng) {
             continue;
         }
         for step in 0..len {
-            let kind = KINDS[(code % 3) as usize];
+            let kind = if long { KINDS[rng.usize(3)] } else { KINDS[(code % 3) as usize] };
             code /= 3;
             let m = w.g.model.clone();
             let cand = gen_wellformed_set(&mut rng, &mut w.ring, 3);
@@ -229,5 +258,5 @@ pub fn run(ctx: &Ctx, rep: &mut Report) {
     rep.exhaustive = Some(true);
     rep.notes.insert("required".into(), json!(["validate_proof", "validate_proof-identical-earlier-proof", "approve_messages-identical-earlier-call", "approve_messages", "rotate-bypass", "rotate-plain", "normal-newest", "bypass-oldest-retained", "bypass-newest"]));
     rep.notes.insert("bounds".into(), json!({"retentions": retentions.iter().map(|r| r.to_string()).collect::<Vec<_>>(), "initial_sets": [1, 2, 3], "history_length": len, "histories_per_config": seqs}));
-    rep.notes.insert("rule".into(), json!("exhaustive within bounds: every (retention, number of initial sets, rotation history of the stated length over {normal by newest, bypass by oldest retained set, bypass by newest}); after deployment and after each rotation every installed set is probed with an honest all-signers proof on validate_proof, approve_messages, bypass rotation and plain rotation (each at a checkpoint, rolled back), and with the byte-identical standalone proof made when the set was installed (not rolled back, so that anything remembered about it persists); expectation: honoured iff current_epoch - epoch <= retention (plain rotation: iff newest). distinct = (path, retention, epoch gap, outcome)"));
+    rep.notes.insert("rule".into(), json!("plus long random histories of 20..45 rotations with retention in {15, 16, 17, 20, 33, u64::MAX}, probing a sample of the installed sets (oldest, newest, around the retention boundary, 14..18 and 30..34 epochs back, three random) at every step; exhaustive within bounds: every (retention, number of initial sets, rotation history of the stated length over {normal by newest, bypass by oldest retained set, bypass by newest}); after deployment and after each rotation every installed set is probed with an honest all-signers proof on validate_proof, approve_messages, bypass rotation and plain rotation (each at a checkpoint, rolled back), and with the byte-identical standalone proof made when the set was installed (not rolled back, so that anything remembered about it persists); expectation: honoured iff current_epoch - epoch <= retention (plain rotation: iff newest). distinct = (path, retention, epoch gap, outcome)"));
 }
